@@ -104,7 +104,7 @@ func c17Trans(c *Ctx, pre *Node, st Step, res *Result, post *State) ([]Violation
 }
 
 func checkC17(e *RunEnv) *CheckResult {
-	files := []string{"a", "sub/b", "build/o", "x.log", "sub/y.log", "my.goit/f", "goit/g", "a.logx", "build2/p", ".goit-hooks/h", "sub/.goit", "sub/build", "p.tar.gz", "nest/.goit/q", "a.b/f", "axb/f", "src/build/Makefile", "src/build/gen.c", "sub/old.log/x.txt", "old.log/y.txt"}
+	files := []string{"a", "sub/b", "build/o", "x.log", "sub/y.log", "my.goit/f", "goit/g", "a.logx", "build2/p", ".goit-hooks/h", "sub/.goit", "sub/build", "p.tar.gz", "nest/.goit/q", "a.b/f", "axb/f", "src/build/Makefile", "src/build/gen.c", "sub/old.log/x.txt", "old.log/y.txt", "sub/z-after", "y-after", "z-dir/f"}
 	addArgs := []string{"@ROOT@", "@ROOT@/.goit/HEAD", "@ROOT@/sub", "../root", "../root/.goit/HEAD", ".", "./", "sub", "sub/..", "build", "build/o", "x.log", ".goit", ".goit/HEAD", "a", "my.goit", "goit"}
 	ignores := []string{"build/\n", "*.log\n", "build/\n*.log\n", "build/\r\n*.log\r\n", "*.tar.gz\n", "build/\n\n*.log\n", "a.b/\n", "root/\n"}
 	var seedFiles []Step
